@@ -48,8 +48,12 @@ TEXT['C10'] = dict(
          'both evaluator families, frames included.',
     note=PROOF_NOTE + 'Range of the real floor-modulo is a trusted arithmetic fact. Class level: FluxSurfaceAdvection.step is verified '
          'to interpolate column i of its slice and to hand the kernels i, rows (rIdx, cIdx) of its shift / theta-shift / coefficient '
-         'tables, its own points, work array and the spline just computed (wiring, as callee preconditions). Not under contract: '
-         'FluxSurfaceAdvection._getLagrangePts (stencil, Lagrange weights, theta shifts) - bounded part only.',
+         'tables, its own points, work array and the spline just computed (wiring, as callee preconditions). '
+         'FluxSurfaceAdvection._getLagrangePts is verified on its mechanical backward slice on the two tables (vf/func_slice.py, '
+         'dropped lines in the evidence): shifts[a,b,k] = floor(-v_b b_z(r_a) dt/dz) + k - n/2 + 1 and thetaShifts[a,b,k] = '
+         'iota(r_a) dz shifts[a,b,k] / R0 (no reduction modulo the period) for the OWN global (r, v) of every local (a, b), any '
+         'local box, symbolic stencil size. Not under contract: the barycentric Lagrange weights in the dropped tail - bounded '
+         'part only.',
     technique='loop invariants with frame clauses over 3-index arrays, modular function-parameter contracts, z3')
 
 BOUNDED_NOTE = ('Bounded: the real classes run on a thread-per-rank simulated MPI (vf/shim) that checks collective matching; '
